@@ -1,5 +1,6 @@
 import MgProof.C09.AvlInsert
 import MgProof.C09.AvlRemove
+import MgProof.C09.AvlCheck
 import MgProof.C09.HashLemmas
 import MgProof.C09.TrieLemmas
 import MgProof.C09.MapLemmas
@@ -131,6 +132,22 @@ theorem avl_contents {t : T} (h : AvlOk t) (k : Int) (v : Nat) :
   have hs := (bst_iff_sorted t).mp h.1
   rw [find_eq_lookup hs]
   exact mem_iff_lookup_of_sorted hs k v
+
+/-- the in-order traversal is strictly increasing in the key: together with `avl_contents` the
+tree holds exactly the represented associations, each once -/
+theorem avl_toList_sorted {t : T} (h : AvlOk t) :
+    (T.toList t).Pairwise (fun p q => p.1 < q.1) := (bst_iff_sorted t).mp h.1
+
+/-- the executable check that the driver prints for `achk` — and that the harness recomputes
+from the real `left/right/balance` fields after every operation — is exactly `AvlOk` -/
+theorem avl_check_iff (t : T) : T.wellFormed none none t = true ↔ AvlOk t := by
+  rw [wellFormed_top, AvlOk, bst_iff_sorted]
+  exact And.comm
+
+/-- **C09, "stays balanced" quantified.** A well-formed tree of height `h` holds at least
+`fib (h+2) − 1` associations: the height is logarithmic in the size. -/
+theorem avl_height_logarithmic {t : T} (h : AvlOk t) : fib (T.height t + 2) ≤ T.size t + 1 :=
+  fib_le_size t h.2
 
 /-- a tree of height `h` holds fewer than `2^h` associations -/
 theorem avl_size_lt_two_pow_height : ∀ t : T, T.size t < 2 ^ T.height t := by
@@ -351,6 +368,17 @@ example : runE avlStep .nil
   injection e' with e'
   injection e' with e1 _
   exact ⟨e, e1 ▸ r.1⟩
+
+/-- hash table with the worst hash function (everything collides) and 8 buckets -/
+example : ∃ t : HT Nat, HT.init 8 0 = some t ∧ ∃ t',
+    runE (hashStep (fun _ => 7)) t
+      [.ins 1 10, .ins 2 20, .ins 1 11, .find 1, .rm 1, .find 1, .find 2, .rm 1] =
+    .ok (t', [.flag true, .flag true, .flag false, .val (some 10), .flag true, .val none,
+      .val (some 20), .flag false]) := by
+  refine ⟨_, rfl, ?_⟩
+  obtain ⟨t', e, _⟩ := hash_history_from_init (h := fun (_ : Nat) => 7) (n := 8) (cap := 0) rfl
+    [.ins 1 10, .ins 2 20, .ins 1 11, .find 1, .rm 1, .find 1, .find 2, .rm 1]
+  exact ⟨t', by rw [e]; rfl⟩
 
 example : NulFree [0x80, 0xff, 0x01] ∧
     (specRun trieStep Trie.empty
